@@ -2,7 +2,7 @@
     block_header_encoder.c / index_encoder.c / stream_flags_encoder.c for the
     plain LZMA2 chain) and the proof that the container specification (Xz.v)
     decodes what it writes. *)
-From XZ Require Import Base Crc Sha256 Lzma Lzma2 Xz VliProofs C05Lemmas LzmaRun Lzma2Enc.
+From XZ Require Import Base Crc Sha256 Bcj Lzma Lzma2 Xz VliProofs C05Lemmas LzmaRun Lzma2Enc.
 Require Import ZifyBool ZifyN ZifyNat.
 Local Open Scope N_scope.
 
@@ -40,38 +40,60 @@ Proof. induction l as [|a l IH]; cbn [list_eqb]; [reflexivity|rewrite N.eqb_refl
 Definition stream_header_bytes (check : N) : list N :=
   HEADER_MAGIC ++ [0; check] ++ crc_field [0; check].
 
-Definition block_header_body (db : N) : list N := [2; 0; 0x21; 1; db; 0; 0; 0].
-Definition block_header_bytes (db : N) : list N := block_header_body db ++ crc_field (block_header_body db).
+(** [dl] = Some (distance - 1): a Delta filter in front of LZMA2 *)
+Definition block_header_body (dl : option N) (db : N) : list N :=
+  match dl with
+  | None => [2; 0; 0x21; 1; db; 0; 0; 0]
+  | Some dm1 => [2; 1; 3; 1; dm1; 0x21; 1; db]
+  end.
+Definition block_header_bytes (dl : option N) (db : N) : list N :=
+  block_header_body dl db ++ crc_field (block_header_body dl db).
+Definition chain_of (dl : option N) (d : N) : list filter :=
+  match dl with None => [F_LZMA2 d] | Some dm1 => [F_DELTA (dm1 + 1); F_LZMA2 d] end.
+Definition dl_ok (dl : option N) : Prop := match dl with None => True | Some dm1 => dm1 <= 255 end.
+Definition check4 : list N := [0; 1; 4; 10].
 
-(** every dictionary-size byte 0..40 and every Check ID: the header decodes to the LZMA2 chain *)
-Lemma block_header_roundtrip check db : check < 16 -> db <= 40 ->
+Definition hdr_good (c : N) (dl : option N) (b : N) : bool :=
+  match lzma2_dict_of_byte b, block_header_decode c (block_header_bytes dl b) with
+  | Some d, Ok bh => (bh_size bh =? 12) && (match bh_comp bh with None => true | _ => false end)
+                     && (match bh_uncomp bh with None => true | _ => false end)
+                     && (match dl, bh_filters bh with
+                         | None, [F_LZMA2 d'] => d' =? d
+                         | Some dm1, [F_DELTA dist; F_LZMA2 d'] => (d' =? d) && (dist =? dm1 + 1)
+                         | _, _ => false
+                         end)
+  | _, _ => false
+  end.
+
+(** every dictionary-size byte 0..40, every Delta distance, the four Check IDs: the header decodes to the chain *)
+Lemma block_header_roundtrip check dl db : In check check4 -> dl_ok dl -> db <= 40 ->
   exists d, lzma2_dict_of_byte db = Some d /\
-    block_header_decode check (block_header_bytes db) =
-    Ok {| bh_size := 12; bh_comp := None; bh_uncomp := None; bh_filters := [F_LZMA2 d] |}.
+    block_header_decode check (block_header_bytes dl db) =
+    Ok {| bh_size := 12; bh_comp := None; bh_uncomp := None; bh_filters := chain_of dl d |}.
 Proof.
-  intros Hc Hd.
+  intros Hc Hdl Hd.
   assert (H : forallb (fun c => forallb (fun b =>
-              match lzma2_dict_of_byte b, block_header_decode c (block_header_bytes b) with
-              | Some d, Ok bh => (bh_size bh =? 12) && (match bh_comp bh with None => true | _ => false end)
-                                 && (match bh_uncomp bh with None => true | _ => false end)
-                                 && (match bh_filters bh with [F_LZMA2 d'] => d' =? d | _ => false end)
-              | _, _ => false
-              end) (map N.of_nat (seq 0 41))) (map N.of_nat (seq 0 16)) = true) by (vm_compute; reflexivity).
-  rewrite forallb_forall in H.
-  assert (Ic : In check (map N.of_nat (seq 0 16))).
-  { apply in_map_iff. exists (N.to_nat check). split; [lia|apply in_seq; lia]. }
-  specialize (H check Ic). rewrite forallb_forall in H.
+                hdr_good c None b && forallb (fun m => hdr_good c (Some m) b) (map N.of_nat (seq 0 256)))
+              (map N.of_nat (seq 0 41))) check4 = true) by (vm_compute; reflexivity).
+  rewrite forallb_forall in H. specialize (H check Hc). rewrite forallb_forall in H.
   assert (Ib : In db (map N.of_nat (seq 0 41))).
   { apply in_map_iff. exists (N.to_nat db). split; [lia|apply in_seq; lia]. }
-  specialize (H db Ib).
-  destruct (lzma2_dict_of_byte db) as [d|]; [|discriminate H].
-  destruct (block_header_decode check (block_header_bytes db)) as [bh|e]; [|discriminate H].
+  specialize (H db Ib). apply andb_true_iff in H. destruct H as [HN HS].
+  assert (G : hdr_good check dl db = true).
+  { destruct dl as [m|]; [|exact HN]. rewrite forallb_forall in HS. apply HS.
+    apply in_map_iff. exists (N.to_nat m). cbn in Hdl. split; [lia|apply in_seq; lia]. }
+  unfold hdr_good in G.
+  destruct (lzma2_dict_of_byte db) as [d|]; [|discriminate G].
+  destruct (block_header_decode check (block_header_bytes dl db)) as [bh|e]; [|discriminate G].
   exists d. split; [reflexivity|].
-  destruct bh as [sz co un fs]. cbn [bh_size bh_comp bh_uncomp bh_filters] in H.
-  apply andb_true_iff in H. destruct H as [H H4]. apply andb_true_iff in H. destruct H as [H H3].
-  apply andb_true_iff in H. destruct H as [H1 H2]. apply N.eqb_eq in H1.
-  destruct co; [discriminate H2|]. destruct un; [discriminate H3|].
-  destruct fs as [|[d'| |] [|? ?]]; try discriminate H4. apply N.eqb_eq in H4. subst. reflexivity.
+  destruct bh as [sz co un fs]. cbn [bh_size bh_comp bh_uncomp bh_filters] in G.
+  apply andb_true_iff in G. destruct G as [G G4]. apply andb_true_iff in G. destruct G as [G G3].
+  apply andb_true_iff in G. destruct G as [G1 G2]. apply N.eqb_eq in G1.
+  destruct co; [discriminate G2|]. destruct un; [discriminate G3|].
+  destruct dl as [m|]; cbn [chain_of].
+  - destruct fs as [|[?|dist|? ?] [|[d'|?|? ?] [|? ?]]]; try discriminate G4.
+    apply andb_true_iff in G4. destruct G4 as [A B]. apply N.eqb_eq in A. apply N.eqb_eq in B. subst. reflexivity.
+  - destruct fs as [|[d'| |] [|? ?]]; try discriminate G4. apply N.eqb_eq in G4. subst. reflexivity.
 Qed.
 
 (** ---------- Blocks ---------- *)
@@ -106,6 +128,8 @@ Proof.
 Qed.
 
 Definition check_ok (check : N) : Prop := check = 0 \/ check = 1 \/ check = 4 \/ check = 10.
+Lemma check_ok_in check : check_ok check -> In check check4.
+Proof. intros [H|[H|[H|H]]]; subst; cbn; auto. Qed.
 
 Lemma check_value_length check data : check_ok check -> lenN (check_value check data) = check_size check.
 Proof.
@@ -116,12 +140,15 @@ Qed.
 Lemma check_ok_supported check : check_ok check -> check_supported check = true /\ check < 16.
 Proof. intros [H|[H|[H|H]]]; subst check; split; try reflexivity; lia. Qed.
 
-Record blockspec := { b_db : N; b_chunks : list l2chunk }.
+Record blockspec := { b_delta : option N; b_db : N; b_chunks : list l2chunk }.
 Definition s_init : l2 := norm (l2_init [] []).
 Definition b_payload (b : blockspec) : list N := chunks_bytes s_init (b_chunks b) ++ [0].
-Definition b_data (b : blockspec) : list N := rev_append (l2out (chunks_final s_init (b_chunks b))) [].
+Definition b_raw (b : blockspec) : list N := rev_append (l2out (chunks_final s_init (b_chunks b))) [].
+(** what the Block holds: the LZMA2 expansion, through the Delta decoder if there is one *)
+Definition b_data (b : blockspec) : list N :=
+  match b_delta b with None => b_raw b | Some dm1 => delta_decode (dm1 + 1) (b_raw b) end.
 Definition block_bytes (check : N) (b : blockspec) : list N :=
-  block_header_bytes (b_db b) ++ b_payload b ++ pad4 (lenN (b_payload b)) ++ check_value check (b_data b).
+  block_header_bytes (b_delta b) (b_db b) ++ b_payload b ++ pad4 (lenN (b_payload b)) ++ check_value check (b_data b).
 Definition block_unpadded (check : N) (b : blockspec) : N := 12 + lenN (b_payload b) + check_size check.
 
 Section Blocks.
@@ -129,7 +156,7 @@ Variable fuel : positive.
 Variable strict : bool.
 
 Definition block_ok (b : blockspec) : Prop :=
-  b_db b <= 40 /\
+  b_db b <= 40 /\ dl_ok (b_delta b) /\
   (forall d, lzma2_dict_of_byte (b_db b) = Some d ->
      chunks_ok (if strict then d else eff_dict d) fuel s_init (b_chunks b)) /\
   (length (b_chunks b) < Pos.to_nat fuel)%nat.
@@ -143,18 +170,23 @@ Lemma block_decode_encoded (x : xz) check b rest :
      xrecords := (block_unpadded check b, lenN (b_data b)) :: xrecords x;
      xcheck := check; xstatus := Running; xpartial := [] |}.
 Proof.
-  intros Hck Hxc [Hdb [Hchunks Hfuel]] Hin.
+  intros Hck Hxc [Hdb [Hdl [Hchunks Hfuel]]] Hin.
   destruct (check_ok_supported check Hck) as [Hsup Hc16].
-  destruct (block_header_roundtrip check (b_db b) Hc16 Hdb) as [d [Ed Ehdr]].
+  destruct (block_header_roundtrip check (b_delta b) (b_db b) (check_ok_in check Hck) Hdl Hdb) as [d [Ed Ehdr]].
   specialize (Hchunks d Ed).
-  unfold block_decode. rewrite Hin. unfold block_bytes at 1. unfold block_header_bytes at 1, block_header_body at 1.
-  cbn [app]. change ((2 + 1) * 4) with 12.
+  assert (Hfirst : exists t, block_bytes check b = 2 :: t).
+  { unfold block_bytes, block_header_bytes, block_header_body. destruct (b_delta b); cbn [app]; eauto. }
+  destruct Hfirst as [t0 Et0].
+  unfold block_decode. rewrite Hin. rewrite Et0. cbn [app]. change (2 :: t0 ++ rest) with ((2 :: t0) ++ rest). rewrite <- Et0. change ((2 + 1) * 4) with 12.
   (* the header *)
   set (tail := b_payload b ++ pad4 (lenN (b_payload b)) ++ check_value check (b_data b)).
-  assert (Etake : take 12 (block_bytes check b ++ rest) = Some (block_header_bytes (b_db b), tail ++ rest)).
+  assert (Etake : take 12 (block_bytes check b ++ rest) = Some (block_header_bytes (b_delta b) (b_db b), tail ++ rest)).
   { unfold block_bytes. fold tail. rewrite <- app_assoc.
-    apply take_app. unfold block_header_bytes, block_header_body, crc_field, lenN. rewrite app_length, le_bytes_length. reflexivity. }
-  rewrite Etake. rewrite Hxc, Ehdr. cbn [bh_filters bh_comp bh_uncomp chain_dict unfilter].
+    apply take_app. unfold block_header_bytes, block_header_body, crc_field, lenN. rewrite app_length, le_bytes_length.
+    destruct (b_delta b); reflexivity. }
+  rewrite Etake. rewrite Hxc, Ehdr. cbn [bh_filters bh_comp bh_uncomp].
+  assert (Ecd : chain_dict (chain_of (b_delta b) d) = d) by (destruct (b_delta b); reflexivity).
+  rewrite Ecd.
   (* the LZMA2 payload *)
   set (dictv := if strict then d else eff_dict d) in *.
   set (s0 := l2_init (tail ++ rest) []).
@@ -173,14 +205,17 @@ Proof.
                  = Some (pad4 (lenN (b_payload b)), check_value check (b_data b) ++ rest)).
   { apply take_app. unfold pad4, lenN. rewrite repeat_length. lia. }
   rewrite Epad. unfold pad4 at 1. rewrite all_zero_repeat. cbn [negb].
-  assert (Eout : rev_append (l2out r) [] = b_data b) by (unfold b_data; rewrite R3; reflexivity).
+  assert (Eout : unfilter (chain_of (b_delta b) d) (rev_append (l2out r) []) = b_data b).
+  { unfold b_data, b_raw. rewrite R3. destruct (b_delta b); reflexivity. }
   rewrite Eout.
   rewrite (take_app _ rest _ (check_value_length check (b_data b) Hck)).
   rewrite Hsup, list_eqb_refl. cbn [andb negb].
   f_equal.
-  - unfold block_bytes, block_header_bytes, block_header_body, crc_field, pad4, lenN.
+  - unfold block_bytes, block_header_bytes, crc_field, pad4, lenN.
     rewrite !app_length, le_bytes_length, repeat_length.
-    pose proof (check_value_length check (b_data b) Hck) as CL. unfold lenN in CL. cbn [length]. lia.
+    pose proof (check_value_length check (b_data b) Hck) as CL. unfold lenN in CL.
+    assert (length (block_header_body (b_delta b) (b_db b)) = 8%nat) by (unfold block_header_body; destruct (b_delta b); reflexivity).
+    lia.
 Qed.
 
 End Blocks.
@@ -356,7 +391,7 @@ Definition stream_bytes (bs : list blockspec) : list N :=
   ++ footer_bytes check (lenN (index_bytes (recs_of bs))).
 
 Lemma block_bytes_first b : exists t, block_bytes check b = 2 :: t.
-Proof. unfold block_bytes, block_header_bytes, block_header_body. cbn [app]. eauto. Qed.
+Proof. unfold block_bytes, block_header_bytes, block_header_body. destruct (b_delta b); cbn [app]; eauto. Qed.
 
 Lemma blocks_loop : forall bs x rest,
   xstatus x = Running -> xcheck x = check -> xpartial x = [] -> Forall (block_ok fuel strict) bs ->
